@@ -6,6 +6,7 @@
 #include <plibsys.h>
 #include <sched.h>
 #include <time.h>
+#include "galloc.h"
 #include "vtmt.h"
 
 static const char *base, *kind; static int nth, nobj, episodes, ops, fresh; static unsigned seed;
@@ -126,6 +127,26 @@ static void tryrace (int rounds) {
 	tryrace_thread ((void *) 1L);
 	pthread_join (h, NULL);
 }
+/* trylock against a busy holder (not logged): one thread locks and unlocks as fast as it can while another calls trylock all the time (releasing
+ * whenever it got the lock) - a trylock attempt then regularly meets the holder's unlock half-way.  Afterwards, with nobody else around, the lock
+ * must be free: a logged trylock by the main thread succeeds (LockLin decides).  If the locking thread does not finish within 15 s the lock has
+ * been lost on the way (LockDead event - no spec action explains it). */
+static void raw_lock (void) { if (kind[0] == 'm') p_mutex_lock (mx[1]); else if (kind[0] == 's') p_spinlock_lock (sp[1]); else p_rwlock_writer_lock (rw[1]); }
+static volatile int tc_done, tc_n;
+static void *churn_locker (void *arg) { int i; (void) arg; for (i = 0; i < tc_n; i++) { raw_lock (); raw_unlock (); } __atomic_store_n (&tc_done, 1, __ATOMIC_SEQ_CST); return NULL; }
+static void *churn_trier (void *arg) { (void) arg; while (!__atomic_load_n (&tc_done, __ATOMIC_SEQ_CST)) if (raw_try ()) raw_unlock (); return NULL; }
+static void trychurn (int n) {
+	pthread_t a, b; double t0 = now_s ();
+	{ cpu_set_t all; int c = 1; if (sched_getaffinity (0, sizeof all, &all) == 0) c = CPU_COUNT (&all); if (c < 2) n /= 20; }
+	tc_done = 0; tc_n = n;
+	pthread_create (&a, NULL, churn_locker, NULL); pthread_create (&b, NULL, churn_trier, NULL);
+	while (!__atomic_load_n (&tc_done, __ATOMIC_SEQ_CST)) {
+		if (now_s () - t0 > 15.0) { VTM ("\"e\":\"LockDead\",\"t\":15,\"o\":1"); vtm_close (); fflush (NULL); _exit (0); }
+		sched_yield ();
+	}
+	pthread_join (a, NULL); pthread_join (b, NULL);
+	if (do_call (16, 1, "wtry")) do_call (16, 1, "wunlock");
+}
 /* "any number of readers": thread 16 enters as a reader through trylock and stays inside until thread 15 has been inside as a reader too (once
  * through the blocking call, once through trylock); if thread 15 has not got in after 3 s the readers are not shared (ReadBlocked event) */
 static void *share_helper (void *arg) {
@@ -159,6 +180,7 @@ int main (int argc, char **argv) {
 	if (nobj > 7 || nth > 31) return 2;
 	vtm_init (nth + 1);
 	p_libsys_init (); p_libsys_shutdown (); p_libsys_init ();      /* the library is used after a shutdown / re-initialisation cycle */
+	if (!ga_install ()) return 2;      /* fresh memory is garbage, released memory is overwritten (galloc.h) */
 	vtm_open (base, 0);
 	for (i = 1; i <= nobj; i++) {
 		if (kind[0] == 'm') mx[i] = p_mutex_new (); else if (kind[0] == 's') sp[i] = p_spinlock_new (); else rw[i] = p_rwlock_new ();
@@ -179,10 +201,11 @@ int main (int argc, char **argv) {
 		vtm_barrier ();
 	}
 	for (i = 1; i <= nth; i++) pthread_join (th[i], NULL);
-	if (nth <= 14) { tryhold (); tryrace (100000); if (kind[0] == 'r') sharehold (); }
+	if (nth <= 14) { tryhold (); tryrace (100000); trychurn (300000); if (kind[0] == 'r') sharehold (); }
 	VTM ("\"e\":\"Epoch\"");
 	for (i = 1; i <= nobj; i++) { if (mx[i]) p_mutex_free (mx[i]); if (sp[i]) p_spinlock_free (sp[i]); if (rw[i]) p_rwlock_free (rw[i]); }
 	vtm_close ();
+	p_mem_restore_vtable ();
 	p_libsys_shutdown ();
 	return 0;
 }
